@@ -310,7 +310,7 @@ class Trajectories:
     def tol(integ, order):
         if order == 1:
             return {"bs": 2e-6}.get(integ, 3e-7)
-        return {"bs": 1e-4}.get(integ, 4e-5)
+        return {"bs": 1e-4}.get(integ, 1e-4)
 
 
 # --------------------------------------------------------------------------------------------- C rescaling
@@ -523,7 +523,7 @@ def run(ctx):
     }
     return ctx.finish(LEVEL, cov, assumptions=[
         "element map and its derivatives: independent 40-digit implementation (classical elements; Pal variables through their definitions), differentiated numerically at 40 digits",
-        "trajectory derivatives: Richardson-extrapolated central differences (steps 2e-3 and 1e-3 in the parameter, half of that for second order, scaled by 92/steps) of shadow runs of the same integrator; tolerance 3e-7 (first order), 4e-5 (second order), BS 2e-6 first order; BS second order is compared with IAS15's variational particles to 1e-6; tolerances grow with (steps/92)^2 for the long horizon; plus 5% of the extrapolated term",
+        "trajectory derivatives: Richardson-extrapolated central differences (steps 2e-3 and 1e-3 in the parameter, half of that for second order, scaled by 92/steps) of shadow runs of the same integrator; tolerance 3e-7 (first order), 1e-4 (second order), BS 2e-6 first order; BS second order is compared with IAS15's variational particles to 1e-6; tolerances grow with (steps/92)^2 for the long horizon; plus 5% of the extrapolated term",
         "WHFast/LEAPFROG first order only, IAS15 and BS first and second order; WHFast in Jacobi coordinates with the default kernel (the only combination the library accepts with variations)",
     ])
 
